@@ -14,6 +14,7 @@ CONSTANTS
   SSSet = {FALSE, TRUE}
   ModeSet = {"single"}
   Workers = 1
+  ArchSet = {FALSE}
 INVARIANT AtMostOnce
 INVARIANT DepsBefore
 INVARIANT SeedsPreserved
